@@ -111,8 +111,8 @@ theorem accepted_frame_adds_length (c : Conn) (hc : AtBoundary c) (b0 b1 : UInt8
   first | exact ReaderMore.accepted_frame_adds_length .. | (apply ReaderMore.accepted_frame_adds_length <;> assumption)
 
 open WS.Codec WS.ReaderDecodes WS.ReaderMore WS.RoleGeneric in
-/-- limit_refuses for either role (masked or unmasked frames), any of the three length encodings below
-    2^16, first frame or continuation -/
+/-- limit_refuses for either role (masked or unmasked frames), the 7-bit and the 16-bit length encoding
+    (payloads below 2^16), first frame or continuation; needs a healthy write side for the 1009 frame -/
 theorem limit_refuses_any_role (c : Conn) (hc : AtBoundary c) (hw : WHealthy c.w)
     (op : Nat) (fin : Bool) (key : Key) (payload rest : Bytes) (hl : payload.length < 65536)
     (hop : (c.r.final = true ∧ (op = 1 ∨ op = 2)) ∨ (c.r.final = false ∧ op = 0))
